@@ -238,6 +238,9 @@ theorem IdxInv.congr {r r' : Records} (hi : IdxInv r) (hl : r'.recs.length = r.r
     rw [h, h]
     exact hi.inj i j (by omega) (by omega) hnli hnlj
 
+theorem IdxInv.of_recs_eq {r r' : Records} (h : IdxInv r) (e : r'.recs = r.recs) : IdxInv r' :=
+  IdxInv.congr h (by rw [e]) (fun j => by simp [Records.get, e])
+
 theorem Records.setPos_index (r : Records) (i p j : Nat) :
     ((r.setPos i p).get j).index = (r.get j).index := by
   by_cases hi : i < r.recs.length
